@@ -156,6 +156,11 @@ fn find_dead_index(prop: &str, seed: u64, from: u64, to: u64, thorough: bool) ->
     Some(Death { index: last, status: format!("{}", out.status) })
 }
 
+/// process deaths are expensive to localise; after a few of them the rest of the affected
+/// ranges is not explored any further (the check fails anyway)
+static DEATHS: std::sync::atomic::AtomicUsize = std::sync::atomic::AtomicUsize::new(0);
+const MAX_DEATHS: usize = 4;
+
 pub struct BatchResult {
     pub out: WorkerOut,
     pub deaths: Vec<Death>,
@@ -198,6 +203,10 @@ pub fn run_batch(prop: &str, seed: u64, runs: u64, thorough: bool, jobs: usize) 
             }
             _ => {
                 // worker died (UB-check abort, fatal signal, ...): find the run
+                if DEATHS.fetch_add(1, std::sync::atomic::Ordering::SeqCst) >= MAX_DEATHS {
+                    total.stats.hit("exploration-truncated-after-process-deaths");
+                    continue;
+                }
                 match find_dead_index(prop, seed, sp.from, sp.to, thorough) {
                     Some(d) => {
                         // everything before and after the dead run still has to be explored
@@ -235,6 +244,9 @@ fn run_range(prop: &str, seed: u64, from: u64, to: u64, thorough: bool) -> Batch
     let mut res = BatchResult { out: WorkerOut::default(), deaths: Vec::new(), wall_s: 0.0 };
     match (o.status.success(), parsed) {
         (true, Some(w)) => res.out = w,
+        _ if DEATHS.fetch_add(1, std::sync::atomic::Ordering::SeqCst) >= MAX_DEATHS => {
+            res.out.stats.hit("exploration-truncated-after-process-deaths");
+        }
         _ => match find_dead_index(prop, seed, from, to, thorough) {
             Some(d) => {
                 for (a, b) in [(from, d.index), (d.index + 1, to)] {
